@@ -55,6 +55,11 @@ CLAIMED = {
     note="Trusted: Coq kernel; stdlib real axioms for the formula theorems; harness/c07.py (recombination oracle). beta in 2-D is refused by the implementation (NotImplementedError) and counted, not compared.",
     technique="Coq proof (list-slice arithmetic for all sizes, field identities) + recombination correspondence",
     design="DESIGN.md §3 C07"),
+ "C03": dict(
+    text="Coq theorems over the reals for every grid, data point and width: a pinhole column (masked erf differences, normalised) is non-negative and sums to one whenever the window holds positive mass; the length-only slit bins in the u = sqrt(q'^2 - q^2) variable telescope to exactly one whenever the calculation grid covers [q, sqrt(q^2+L^2)]; applying a column is linear, so scale and background pass through and a flat intensity is returned unchanged. Tied to the code by evaluating the executable Coq model (binary64: bin_edges, pinhole column from the erf leaf, the three slit branches incl. the 61-point mixed average) against Resolution.weight_matrix on linear, log, near-zero, irregular and 1-2 point grids, and by a model-free oracle asserting the property itself (non-negativity, unit sums, constants, positive q_calc, coverage of every window, exact zero-width identity, construction without error, DirectModel linearity, 2-D accuracy levels).",
+    note="Trusted: Coq kernel; stdlib real axioms; erf is a leaf (scipy.special.erf); q_calc extension (linspace/logspace, ceil, log) is checked by the oracle only; slits with q_width>0 are a recorded known finding (cannot be repaired without moving a pinned test value).",
+    technique="Coq proof (normalisation, telescoping sums over R) + vm_compute correspondence + property oracle",
+    design="DESIGN.md §3 C03"),
 }
 NA_REASON = "check not built yet in this session (planned, see DESIGN.md §7)"
 
